@@ -63,3 +63,7 @@ DIL_NOTE = SIM_NOTE + " Dilation runs over the simulated TCP network; Noise is n
 TABLE["C10"] = dict(engine="simworld", technique="property-based testing: Hypothesis-generated subchannel operation histories (open/write/close on several subchannels, both directions, listeners early or late) interleaved by a tape with kills of the selected link at arbitrary byte positions; per-subchannel sequence-equality oracle checked after every step and at quiescence",
     text="Two real dilated wormholes end to end (Manager, Connector, L2 protocol with Noise, Inbound/Outbound, subchannels); the link in use is killed 0-5 times per case with the two sides noticing independently, writes are issued also while disconnected; the oracle compares what each application end received with what the other end wrote, write boundary by write boundary.",
     note=DIL_NOTE)
+
+TABLE["C13"] = dict(engine="simworld", technique="property-based testing: Hypothesis-generated listen/connect/write/close interleavings on both sides with declared expected-subprotocol sets, late and missing listeners, simultaneous closes and writes after close; subchannel lifecycle reference model checked after every step and at quiescence",
+    text="Real dilated wormholes; expected_subprotocols is passed through w.dilate() so the wiring is on the path. The defect this found (the declared set was ignored) was repaired in repo commit 0b73d02 (fix:).",
+    note=DIL_NOTE + " For IHalfCloseableProtocol applications read/writeConnectionLost are recorded and reported, not asserted.")
